@@ -19,6 +19,7 @@
    an oracle that never repeats - run under ANY schedule of ANY number of requests; the C14_conc_*
    theorems say that every request is answered from what its own hook run wrote. *)
 From Verif Require Import Common C14_Model C14_Spec C14_Proofs C14_ConcModel C14_ConcSpec C14_ConcProofs.
+From Verif Require Import C14_CtxModel C14_CtxSpec C14_CtxProofs.
 
 Theorem C14_fail_closed : forall hooks path b r, names_ok hooks ->
   allowed_of (fst (admit_request hooks path b r)) = true ->
@@ -274,4 +275,78 @@ Example C14_conc_example :
   = [ Some (AReview (mkReview 1 false 403 (AMHook 4) [2] 0 false), Some (0, (Validating, [112; 46; 99])), (false, false), true);
       Some (AReview (mkReview 2 true 0 AMNone [] 0 false), Some (0, (Validating, [112; 46; 99])), (false, false), true) ]
   /\ outs ex_conc (moves_run ex_hooks ex_conc [1; 0; 1; 0; 1; 0]) = outs ex_conc (moves_run ex_hooks ex_conc [0; 0; 1; 1; 0; 1]).
+Proof. split; vm_compute; reflexivity. Qed.
+
+(* ---- bindings with `group` / `includeSnapshotsFrom`, hooks with `kubernetes` bindings: what the hook
+   of a request is shown (C14_CtxModel: HandleEvent, UpdateSnapshots, MapV1 statement by statement) ---- *)
+
+(* MapV1 on an admission context: type Validating / Mutating and the review, no groupName - whatever the
+   group, the included snapshots and the snapshot map of the context *)
+Theorem C14_ctx_admission_context_never_group : forall t inc all g name snaps rv,
+  map_v1 (mkBC (of_btype t) inc all g name snaps rv)
+  = mkR name (rt_of t) (if C14_CtxModel.nonempty inc || all then Some snaps else None) None rv.
+Proof. exact map_v1_admission. Qed.
+Print Assumptions C14_ctx_admission_context_never_group.
+
+(* "a request is handed to the hook and binding that registered that path": the hook that runs reads
+   the request's uid in a context of the type and name of its link, for EVERY configuration *)
+Theorem C14_ctx_request_handed : forall hooks path b r,
+  handed b (c_who (ctx_request hooks path b r)) (c_shown (ctx_request hooks path b r)) = true.
+Proof. exact handed_holds. Qed.
+Print Assumptions C14_ctx_request_handed.
+
+(* a hook that looks before it answers always finds its request: the exchange is the one of C14_Model on
+   the scripted run - the relayed verdict is a verdict on this request *)
+Theorem C14_ctx_verdict_about_request : forall hooks path b r,
+  ctx_request hooks path b r
+  = (admit_request (map strip hooks) path b r, admit_effects (map strip hooks) path b r, shown_of hooks path b).
+Proof. exact ctx_request_eq. Qed.
+Print Assumptions C14_ctx_verdict_about_request.
+
+(* the parameters change nothing of what the hook is shown but the "snapshots" field *)
+Theorem C14_ctx_parameters_only_bring_snapshots : forall hooks hooks' path b,
+  map strip hooks = map strip hooks' ->
+  option_map (fun x => (r_binding x, r_type x, r_group x, r_review x)) (shown_of hooks path b)
+  = option_map (fun x => (r_binding x, r_type x, r_group x, r_review x)) (shown_of hooks' path b).
+Proof. exact shown_modulo_snapshots. Qed.
+Print Assumptions C14_ctx_parameters_only_bring_snapshots.
+
+(* the snapshots shown are snapshots of `kubernetes` bindings of the hook that runs *)
+Theorem C14_ctx_snapshots_sound : forall hooks path b r, includes_ok hooks ->
+  snapshots_sound hooks (c_who (ctx_request hooks path b r)) (c_shown (ctx_request hooks path b r)) = true.
+Proof. exact snapshots_sound_holds. Qed.
+Print Assumptions C14_ctx_snapshots_sound.
+
+(* the whole predicate of C14_CtxSpec (C14_Spec.P and the two clauses above) *)
+Theorem C14_ctx_meets_spec : forall hooks path b r, names_ok (map strip hooks) -> includes_ok hooks ->
+  P_ctx hooks (model_regs (map strip hooks)) path b r
+        (c_ans (ctx_request hooks path b r)) (c_who (ctx_request hooks path b r)) (c_shown (ctx_request hooks path b r)) = true.
+Proof. exact P_ctx_holds. Qed.
+Print Assumptions C14_ctx_meets_spec.
+
+(* non-vacuity.  One hook: kubernetes bindings 1 (group 7) and 2 (no group); validating "p.c" with group 7
+   and includeSnapshotsFrom [2]; mutating "Mu.c" without parameters *)
+Definition ex_phooks : list phook :=
+  [ mkPHook [(1, Some 7); (2, None)] [mkPB [112; 46; 99] (Some 7) [2]] [mkPB [77; 117; 46; 99] None []] ]%N.
+
+Example C14_ctx_hyp_met : names_ok (map strip ex_phooks) /\ includes_ok ex_phooks.
+Proof.
+  split.
+  - intros h Hh. cbn in Hh. destruct Hh as [<- | []]. cbn [h_val h_mut]. split;
+      repeat (constructor; try (split; [repeat constructor; discriminate | discriminate])).
+  - intros cfg Hc. cbn in Hc. destruct Hc as [<- | []]. intros pb Hpb. cbn in Hpb.
+    destruct Hpb as [<- | [<- | []]]; cbn; intros k Hk; intuition.
+Qed.
+
+(* POST /hooks/p-c uid 5: the hook is shown type Validating, the review with uid 5, snapshots {2, 1}
+   (included by name, and brought in by the group) and no groupName; its allow is relayed.
+   POST /hooks/-mu-c: type Mutating, no snapshots field *)
+Example C14_ctx_examples :
+  ctx_request ex_phooks [47; 104; 111; 111; 107; 115; 47; 112; 45; 99]%N (BReview 5)
+              (mkRun true (FResp true 0 [] 0 false) MEmpty CEmpty KEmpty)
+  = (AReview (mkReview 5 true 0 AMNone [] 0 false), Some (0, (Validating, [112; 46; 99])), (false, false),
+     Some (mkR [112; 46; 99] RtValidating (Some [2; 1]) None (Some 5)))%N
+  /\ c_shown (ctx_request ex_phooks [47; 104; 111; 111; 107; 115; 47; 45; 109; 117; 45; 99]%N (BReview 6)
+              (mkRun true FEmpty MEmpty CEmpty KEmpty))
+  = Some (mkR [77; 117; 46; 99] RtMutating None None (Some 6))%N.
 Proof. split; vm_compute; reflexivity. Qed.
